@@ -21,6 +21,7 @@ type Clause struct {
 	Loop    int
 	Callee  string
 	CallOrd int // -1 = every call
+	Local   bool // lensures: not exported to callers
 	File    string
 	Line    int
 }
@@ -85,6 +86,7 @@ type ContractTable struct {
 	GhostFields map[string]*GhostField // key: pkgpath.Type.name
 	Preds       map[string]*Pred
 	ModSets     map[string]*ModSet
+	Encapsulated map[string]bool
 	Files       []string
 	Axioms      []Clause
 }
@@ -144,7 +146,7 @@ func (ct *ContractTable) parseFile(repo, file string) error {
 	keywords := map[string]bool{"func": true, "extern": true, "iface": true, "ghost": true, "ghostfield": true, "pred": true,
 		"requires": true, "ensures": true, "modifies": true, "serves": true, "loop": true, "call": true, "assume": true,
 		"trusted": true, "inline": true, "pure": true, "nobody": true, "axiom": true, "end": true,
-		"gmodifies": true, "gensures": true, "modset": true, "allowpanic": true}
+		"gmodifies": true, "gensures": true, "modset": true, "allowpanic": true, "encapsulated": true, "lensures": true}
 	for i, l := range lines {
 		t := strings.TrimSpace(l)
 		if !strings.HasPrefix(t, "//@") {
@@ -326,6 +328,15 @@ func (ct *ContractTable) parseFile(repo, file string) error {
 			}
 			ct.ModSets[ms.Name] = ms
 			cur = nil
+		case "encapsulated":
+			// encapsulated T: the fields of struct type T may only be accessed by methods of T
+			if ct.Encapsulated == nil {
+				ct.Encapsulated = map[string]bool{}
+			}
+			for _, n := range strings.Fields(rest) {
+				ct.Encapsulated[pkgPath+"."+n] = true
+			}
+			cur = nil
 		case "end":
 			cur = nil
 		default:
@@ -365,7 +376,7 @@ func (ct *ContractTable) parseFile(repo, file string) error {
 					return errf("%v", err)
 				}
 				cur.GEns = append(cur.GEns, Clause{Kind: w, Tags: tags, Label: label, Expr: e, Src: src, File: file, Line: it.line})
-			case "requires", "ensures", "assume":
+			case "requires", "ensures", "assume", "lensures":
 				tags, label, e, src, err := parseTagged(rest)
 				if err != nil {
 					return errf("%v", err)
@@ -375,6 +386,11 @@ func (ct *ContractTable) parseFile(repo, file string) error {
 				case "requires":
 					cur.Requires = append(cur.Requires, cl)
 				case "ensures":
+					cur.Ensures = append(cur.Ensures, cl)
+				case "lensures":
+					// local postcondition: proved at every return, may mention local variables, not exported to callers
+					cl.Local = true
+					cl.Kind = "ensures"
 					cur.Ensures = append(cur.Ensures, cl)
 				case "assume":
 					cur.Assumes = append(cur.Assumes, cl)
